@@ -236,7 +236,7 @@ func itemTree(code uint32, response bool, id []byte, payload *ttlvref.Node) *ttl
 
 func TestC06Dispatch(t *testing.T) {
 	const name = "TestC06Dispatch"
-	rec := evid.New("C06", name, "operation code drawn from {27 implemented, 16 named-only, arbitrary uint32 (boundary-biased)} x {request,response} x {binary,XML,JSON}; payload tree from the reference encoder "+
+	rec := evid.New("C06", name, "operation code drawn from {27 implemented, 16 named-only, arbitrary uint32 (boundary-biased)} x {request,response with result status Success/Failed/Pending/Undone} x {binary,XML,JSON}; payload tree from the reference encoder "+
 		"(implemented operations, incl. all 9 object types and standard/custom/unknown attributes) or a generic tree (others), rendered by the independent writers; "+
 		"non-trivial = unknown operation with a nested structure, or an implemented operation decoded from XML/JSON, or a payload carrying an object or attribute; distinct by input bytes").Attach(t)
 	rapid.Check(t, func(rt *rapid.T) {
@@ -310,6 +310,23 @@ func TestC06Dispatch(t *testing.T) {
 			id = []byte{1, 2, 3}
 		}
 		tree := itemTree(code, response, id, ptree)
+		if response {
+			// the payload type follows the operation whatever the result status of the item is
+			status := rapid.SampledFrom([]int64{0, 0, 0, 1, 2, 3}).Draw(rt, "status")
+			var kids []*ttlvref.Node
+			for _, k := range tree.Kids {
+				kids = append(kids, k)
+				if k.Tag == tagResultStatus {
+					k.I = status
+					if status == 1 {
+						// a failed item carries a Result Reason (required by the specification)
+						kids = append(kids, &ttlvref.Node{Tag: 0x42007E, Type: ttlvref.Enumeration, I: int64(rapid.IntRange(1, 0x13).Draw(rt, "reason"))})
+					}
+				}
+			}
+			tree.Kids = kids
+			labels = append(labels, fmt.Sprintf("result-status=%d", status))
+		}
 		input := refEncode(tree, enc)
 		labels = append(labels, "enc="+enc)
 		rec.Case(nt, input, labels...)
